@@ -111,7 +111,11 @@ pub fn build_pretty_string_item(
 
     let marker_start_ofs_len = start - line_start;
     let marker_start_tab_len = blank_counter::count_tabspace(&content[line_start..start]);
-    let marker_end_ofs_len = end - line_end_start_pos - 1;
+    // Byte offset of the last removed character (it may be longer than one byte).
+    let marker_end_ofs_len = content[line_end_start_pos..end]
+        .char_indices()
+        .last()
+        .map_or(0, |(pos, _)| pos);
     let marker_end_tab_len = blank_counter::count_tabspace(&content[line_end_start_pos..end]);
     let mut result = String::with_capacity(
         (marker_start_ofs_len + line_number_ofs - marker_start_tab_len + (marker_start_tab_len * TABSPACE.len())  + marker_start_color.len() + MARKER_START.len() + reset_color.len())    // start marker
